@@ -70,6 +70,49 @@ func c05[S, D signal.SignalTypes](conv func(*signal.Buffer[S], *signal.Buffer[D]
 	}
 }
 
+// c05big: on long buffers (size-dependent code paths) a sample still converts exactly as it does alone.
+func c05big[S, D signal.SignalTypes](conv func(*signal.Buffer[S], *signal.Buffer[D]) int) {
+	C := vf.Pick("C", 1, 2)
+	N := vf.Param("BigFrames", 600) / C
+	src := signal.Alloc[S](signal.Allocator{Channels: C, Length: N, Capacity: N})
+	dst := signal.Alloc[D](signal.Allocator{Channels: C, Length: N, Capacity: N})
+	pos := []int{0, C * N / 2, C*N - 1}[vf.Pick("at", 0, 2)]
+	x := vf.Any[S]("x")
+	src.SetSample(pos, x)
+	dst.SetSample(pos, 1) // stale
+	vf.Assert("returns-frames", conv(src, dst) == N)
+	one := signal.Alloc[S](signal.Allocator{Channels: 1, Length: 1, Capacity: 1})
+	oneD := signal.Alloc[D](signal.Allocator{Channels: 1, Length: 1, Capacity: 1})
+	one.SetSample(0, x)
+	conv(one, oneD)
+	vf.Cover("big")
+	vf.Assert("size-independent", vf.SameBits(dst.Sample(pos), oneD.Sample(0)))
+}
+
+func C05_Big_FloatAsFloat[S, D constraints.Float]() { c05big[S, D](signal.FloatAsFloat[S, D]) }
+func C05_Big_FloatAsSigned[S constraints.Float, D constraints.Signed]() {
+	c05big[S, D](signal.FloatAsSigned[S, D])
+}
+func C05_Big_FloatAsUnsigned[S constraints.Float, D constraints.Unsigned]() {
+	c05big[S, D](signal.FloatAsUnsigned[S, D])
+}
+func C05_Big_SignedAsFloat[S constraints.Signed, D constraints.Float]() {
+	c05big[S, D](signal.SignedAsFloat[S, D])
+}
+func C05_Big_SignedAsSigned[S, D constraints.Signed]() { c05big[S, D](signal.SignedAsSigned[S, D]) }
+func C05_Big_SignedAsUnsigned[S constraints.Signed, D constraints.Unsigned]() {
+	c05big[S, D](signal.SignedAsUnsigned[S, D])
+}
+func C05_Big_UnsignedAsFloat[S constraints.Unsigned, D constraints.Float]() {
+	c05big[S, D](signal.UnsignedAsFloat[S, D])
+}
+func C05_Big_UnsignedAsSigned[S constraints.Unsigned, D constraints.Signed]() {
+	c05big[S, D](signal.UnsignedAsSigned[S, D])
+}
+func C05_Big_UnsignedAsUnsigned[S, D constraints.Unsigned]() {
+	c05big[S, D](signal.UnsignedAsUnsigned[S, D])
+}
+
 func C05_FloatAsFloat[S, D constraints.Float]() { c05[S, D](signal.FloatAsFloat[S, D]) }
 func C05_FloatAsSigned[S constraints.Float, D constraints.Signed]() {
 	c05[S, D](signal.FloatAsSigned[S, D])
